@@ -373,10 +373,36 @@ type UintArg struct {
 	i uint
 }
 
+// isDecimalInteger reports whether s matches the RFC 6020; Sec 12 rule
+//
+//	non-negative-integer-value = "0" / positive-integer-value
+//	positive-integer-value     = (non-zero-digit *DIGIT)
+//
+// optionally preceded by "-" when negative values are allowed
+// (integer-value). Signs, leading zeros, base prefixes and digit
+// separators accepted by strconv are not YANG.
+func isDecimalInteger(s string, allowNegative bool) bool {
+	if allowNegative && strings.HasPrefix(s, "-") {
+		s = s[1:]
+	}
+	if s == "" || (len(s) > 1 && s[0] == '0') {
+		return false
+	}
+	for i := 0; i < len(s); i++ {
+		if s[i] < '0' || s[i] > '9' {
+			return false
+		}
+	}
+	return true
+}
+
 func (a *UintArg) Parse() error {
-	i, e := strconv.ParseUint(string(a.arg), 0, 32)
+	i, e := strconv.ParseUint(string(a.arg), 10, 32)
 	if e != nil {
 		return e
+	}
+	if !isDecimalInteger(string(a.arg), false) {
+		return errors.New("invalid non-negative integer: " + string(a.arg))
 	}
 	a.i = uint(i)
 	return nil
@@ -388,9 +414,12 @@ type IntArg struct {
 }
 
 func (a *IntArg) Parse() error {
-	i, e := strconv.ParseInt(string(a.arg), 0, 32)
+	i, e := strconv.ParseInt(string(a.arg), 10, 32)
 	if e != nil {
 		return e
+	}
+	if !isDecimalInteger(string(a.arg), true) {
+		return errors.New("invalid integer: " + string(a.arg))
 	}
 	a.i = int(i)
 	return nil
@@ -766,6 +795,9 @@ func (a *FractionDigitsArg) Parse() error {
 	case 1:
 		fallthrough
 	case 2:
+		if !isDecimalInteger(str, false) {
+			return ErrInval
+		}
 		a.fdigits, err = strconv.Atoi(str)
 		if err != nil {
 			return errors.New(ErrInval.Error() + ": " + err.Error())
